@@ -58,21 +58,38 @@ MODES = {'text': ['-n'], 'json': ['-n', '-j'], 'batch': ['-n', '-b'], 'json-v': 
 _solo = {}
 
 
-def add(net, host, kind):
+def split_line(line):
+    """target as written in the file -> (host, port)"""
+    if line.startswith('['):
+        h, _, rest = line[1:].partition(']')
+        return h, int(rest[1:]) if rest.startswith(':') else 22
+    if line.count(':') == 1:
+        h, _, p = line.partition(':')
+        return h, int(p)
+    return line, 22
+
+
+def add(net, line, kind):
+    host, port = split_line(line)
+    v6 = ':' in host
+    # one address per host name (a name listed again on another port resolves to the same address)
+    ips = net.resolve.get(host) or ([(10, host)] if v6 else [(2, '10.8.%d.%d' % (len(net.resolve) // 200, 1 + len(net.resolve) % 200))])
+    ip = ips[0][1]
     if kind in HEALTHY:
-        net.add(host, 22, fakenet.Server(dict(HEALTHY[kind], banner='SSH-2.0-OpenSSH_9.3')))
+        net.add(host, port, fakenet.Server(dict(HEALTHY[kind], banner='SSH-2.0-OpenSSH_9.3')), ips=ips)
         return
     b = BAD[kind]
     if b == 'unresolvable':
         return
-    ip = '10.8.%d.%d' % (len(net.resolve) // 200, 1 + len(net.resolve) % 200)
     if b == 'refused':
-        net.resolve[host] = [(2, ip)]
+        if not v6:
+            net.resolve[host] = ips
     elif b == 'timeout':
-        net.resolve[host] = [(2, ip)]
-        net.servers[(ip, 22)] = 'timeout'
+        if not v6:
+            net.resolve[host] = ips
+        net.servers[(ip, port)] = 'timeout'
     else:
-        net.add(host, 22, fakenet.peer_from_spec(dict(b)), ips=[(2, ip)])
+        net.add(host, port, fakenet.peer_from_spec(dict(b)), ips=ips)
 
 
 def run_list(kinds, mode, threads, choices, gate=True, hosts=None):
@@ -198,6 +215,17 @@ def eval_case(case):
         return eval_real(case)
     kinds, mode, threads = list(case['kinds']), case['mode'], case['threads']
     hosts = [host_for(i, k) for i, k in enumerate(kinds)]
+    forms = case.get('forms') or []
+    for i, f in enumerate(forms[:len(hosts)]):
+        # how the target is written in the file: with a port of its own, as a bracketed IPv6 address, or as one more port of the first host
+        if kinds[i] in HOST_FORM or f is None:
+            continue
+        if f[0] == 'port':
+            hosts[i] = '%s:%d' % (hosts[i], f[1])
+        elif f[0] == 'v6':
+            hosts[i] = '[2001:db8:8::%x]:%d' % (i + 1, f[1])
+        elif f[0] == 'samehost' and i > 0 and kinds[0] not in HOST_FORM and BAD.get(kinds[0]) != 'unresolvable' and BAD.get(kinds[i]) != 'unresolvable':
+            hosts[i] = '%s:%d' % (split_line(hosts[0])[0], f[1] + i)
     for d in case.get('dups', []):          # the same target listed again (same host, hence same kind)
         d = d % len(hosts)
         spec = BAD.get(kinds[d])
@@ -213,7 +241,7 @@ def eval_case(case):
     healthy = [k for k in kinds if k in HEALTHY]
     bad = [k for k in kinds if k in BAD]
     nt = bool(healthy) and bool(bad)
-    cl = ['mode:' + mode, 'threads:%d' % threads, 'n:%d' % n] + ['bad:' + b for b in sorted(set(bad))]
+    cl = ['mode:' + mode, 'threads:%d' % threads, 'n:%d' % n] + ['bad:' + b for b in sorted(set(bad))] + sorted({'form:' + f[0] for f in forms if f})
     tag = '+'.join(sorted(set(bad))) or 'none'
     solos = [solo(h, k, mode) for h, k in zip(hosts, kinds)]
     if r.exc:
@@ -275,13 +303,19 @@ ALLK = sorted(HEALTHY) + sorted(BAD)
 
 def strat_list():
     def build(t):
-        kinds, mode, threads, choices, gate = t
+        kinds, mode, threads, choices, gate, forms = t
         if not any(k in BAD for k in kinds):
             kinds = kinds + ['refused']
         if not any(k in HEALTHY for k in kinds):
             kinds = ['good'] + kinds
-        return {'kinds': kinds, 'mode': mode, 'threads': min(threads, len(kinds)), 'choices': choices, 'gate': gate, 'dups': [choices[0]] if len(choices) % 4 == 0 else []}
-    return st.tuples(st.lists(st.sampled_from(ALLK), min_size=2, max_size=5), st.sampled_from(['text', 'json', 'text', 'json', 'batch']), st.integers(1, 5), st.lists(st.integers(0, 4), min_size=1, max_size=40), st.booleans()).map(build)
+        c = {'kinds': kinds, 'mode': mode, 'threads': min(threads, len(kinds)), 'choices': choices, 'gate': gate, 'dups': [choices[0]] if len(choices) % 4 == 0 else []}
+        if any(f is not None for f in forms):
+            c['forms'] = forms
+            c['dups'] = []
+        return c
+    form = st.one_of(st.none(), st.none(), st.tuples(st.just('port'), st.sampled_from([2222, 65535, 1, 22, 8022])).map(list), st.tuples(st.just('v6'), st.sampled_from([22, 2222, 65535])).map(list), st.tuples(st.just('samehost'), st.sampled_from([2200, 65530])).map(list))
+    return st.tuples(st.lists(st.sampled_from(ALLK), min_size=2, max_size=5), st.sampled_from(['text', 'json', 'text', 'json', 'batch']), st.integers(1, 5), st.lists(st.integers(0, 4), min_size=1, max_size=40), st.booleans(),
+                     st.one_of(st.just([None] * 6), st.lists(form, min_size=6, max_size=6))).map(build)
 
 
 def run(ctx):
